@@ -1263,7 +1263,15 @@ def build_unit(verif, repo, template_path, canary=False, soft=False, extra_fns=N
                     u.degraded.append('%s reduced to its signature (it does not compile in the verifier on this tree and no function of this property calls it)' % fs.name)
                     emit('#[verifier::external_body]\n', 'TPL', '%s:%d' % (rel, fs.tline))
                 else:
-                    pieces = assemble_fn(repo, fs, u.functions, canary, soft=(u.degraded if soft else None))
+                    try:
+                        pieces = assemble_fn(repo, fs, u.functions, canary, soft=(u.degraded if soft else None))
+                    except ExtractError as e_:
+                        # a contracted function that no longer exists on this tree (removed or renamed): in soft mode it is
+                        # left out; callers that still name it will not compile, callers that do not are judged as they are
+                        if soft and 'anchor lost: fn ' in str(e_):
+                            u.degraded.append('function %s no longer exists in %s: its contract is dropped for this run' % (fs.name, fs.file))
+                            continue
+                        raise
                 w = fs.within.split(' for ')[-1] if fs.within else None
                 if w: w = re.sub(r'<.*', '', w).strip()
                 u.functions[-1]['vname'] = '::'.join(state['mods'] + ([w] if w else []) + [fs.name])
